@@ -13,6 +13,7 @@ EXPLANATION = (
     "to offs+len of the consumed token on its success path, and the statement span is [first.offs, tok_end) or the "
     "mnemonic's own span. R4: directive words carry join(directive, literal), and join is [min offs, max end). "
     "R5 (EFF): the debugger's source view is built from the very AIR the image was emitted from and is never written."
+    ' R4 is decided on emission summaries with call identity (directive token vs operand token). R7: a prefix label taken by the parser is entered into the symbol table on every way to the next statement.'
 )
 NOT_DECIDED = "equality of the shown text with the intended statement text for every layout (comments glued to operands etc.)"
 
